@@ -30,6 +30,7 @@ use duckscript::runner;
 use duckscript::types::error::ScriptError;
 use duckscript::types::runtime::Context;
 use std::env;
+use std::io::{stdout, Write};
 use std::process::exit;
 
 static VERSION: &str = env!("CARGO_PKG_VERSION");
@@ -39,7 +40,8 @@ static DESCRIPTION: &str = env!("CARGO_PKG_DESCRIPTION");
 fn main() {
     match run_cli() {
         Err(error) => {
-            println!("Error: {}", error);
+            // (println panics when the output can not be written, for example when nobody reads the pipe)
+            writeln!(stdout(), "Error: {}", error).unwrap_or(());
             exit(1);
         }
         _ => (),
@@ -55,20 +57,27 @@ fn run_cli() -> Result<(), ScriptError> {
     if args.len() < 2 {
         run_repl()
     } else if args[1] == "--version" {
-        println!(
+        writeln!(
+            stdout(),
             "Duckscript Runtime: {}\nDuckscript SDK: {}\nDuckscript CLI: {}",
             duckscript::version(),
             duckscriptsdk::version(),
             VERSION
-        );
+        )
+        .unwrap_or(());
 
         Ok(())
     } else if args[1] == "--help" || args[1] == "-h" {
         let usage = include_str!("help.txt");
-        println!(
+        writeln!(
+            stdout(),
             "duckscript {}\n{}\n{}\n\n{}",
-            VERSION, AUTHOR, DESCRIPTION, usage
-        );
+            VERSION,
+            AUTHOR,
+            DESCRIPTION,
+            usage
+        )
+        .unwrap_or(());
 
         Ok(())
     } else {
